@@ -57,6 +57,30 @@ CHECKS = {
         "counted and how often: exact for in-order histories, bracketed for out-of-order ones. Exhaustive within the grammar.",
         "Trusted: the oracle (80 lines). Samples share one task start; grid and bounds in the evidence.",
     ),
+    "C02": (
+        "exploration",
+        "bounded-exhaustive enumeration of schedule elements x total client counts and of host layouts x client counts through the real "
+        "Allocator / calculate_worker_assignments against reference invariants",
+        "DESIGN.md §4 C02",
+        "Every element of the grammar (tasks with 1..3 clients; parallels of 1..3 sub-tasks, caps None/1..4, completed-by none/any/each) "
+        "is allocated alone and next to a task of 1..6 clients (an element's allocation depends on the rest of the schedule only through "
+        "the maximum client count), plus all schedules of length <= 3 over a reduced alphabet; every list of 1..3 (4) hosts over the core "
+        "alphabet x 1..17 (40) clients. Reference: rectangular matrix, shared aligned join points, client indices 0..n-1 exactly once per "
+        "task, one progress entry per step, Driver.update_progress_message walks every step; workers: no loss/duplication, contiguous, "
+        "<= cores workers, loads differ by <= 1. Exhaustive within the grammar.",
+        "Trusted: reference invariants (sched_common.py, 120 lines). Filter-produced schedules are checked with the same invariants in C11.",
+    ),
+    "C11": (
+        "exploration",
+        "bounded-exhaustive enumeration of schedules x include/exclude filter lists through the real TaskFilterTrackProcessor against a "
+        "list-comprehension reference, followed by the C02 allocation invariants and the driver's progress walk on the filtered schedule",
+        "DESIGN.md §4 C11",
+        "Every schedule of <= 2 (thorough 3) elements over 5 leaf prototypes (sequential or parallel, tags as list and as plain string "
+        "with substring traps) in the first or a later challenge x every list of 1..2 of 14 name/type/tag filters, include and exclude: "
+        "kept tasks are the selected ones, same objects, same order, attributes unchanged, every challenge filtered, no empty parallel, "
+        "allocator invariants and progress walk hold; malformed specs raise SystemSetupError.",
+        "Trusted: the reference (15 lines) and sched_common invariants. End-to-end racing of filtered schedules is part of the C01 simulation.",
+    ),
 }
 
 NOT_YET = {}
